@@ -353,19 +353,32 @@ func (b *heapBox[T]) LoadRef(data []byte) bool {
 // ---- configuration ----------------------------------------------------------------
 
 func heSys(kind, cmpN string, n, pmax int, jsonLen int) *HeapSys[HE] {
-	s := &HeapSys[HE]{Kind: kind, CmpN: cmpN, N: n, Poison: HE{-9, -9}}
+	var u []HE
 	for p := 1; p <= pmax; p++ {
 		for id := 0; id < 2; id++ {
-			s.U = append(s.U, HE{p, id})
+			u = append(u, HE{p, id})
 		}
 	}
+	cmp := func(a, b HE) int { return a.P - b.P }
 	if cmpN == "max" {
-		s.Cmp = func(a, b HE) int { return (b.P - a.P) * 3 }
-	} else {
-		s.Cmp = func(a, b HE) int { return a.P - b.P }
+		cmp = func(a, b HE) int { return (b.P - a.P) * 3 }
 	}
-	ui := func(p, pos int) int { return (p-1)*2 + pos%2 } // IDs alternate with the position
-	// bulk: the empty call, every P-pattern of length 2 and 3
+	// element index for priority p at argument position pos: IDs alternate with the position
+	return genHeapSys(kind, cmpN, n, u, HE{-9, -9}, cmp, pmax, func(p, pos int) int { return (p-1)*2 + pos%2 }, jsonLen)
+}
+
+// scalarHeapSys: heap over plain ordered scalars (JSON jobs).
+func scalarHeapSys[T comparable](kind, cmpN string, n int, u []T, poison T, jsonLen int) *HeapSys[T] {
+	cmp := func(a, b T) int { return anyCmp(a, b) }
+	if cmpN == "max" {
+		cmp = func(a, b T) int { return -anyCmp(a, b) }
+	}
+	return genHeapSys(kind, cmpN, n, u, poison, cmp, len(u), func(p, pos int) int { return p - 1 }, jsonLen)
+}
+
+func genHeapSys[T comparable](kind, cmpN string, n int, u []T, poison T, cmp func(a, b T) int, pmax int, ui func(p, pos int) int, jsonLen int) *HeapSys[T] {
+	s := &HeapSys[T]{Kind: kind, CmpN: cmpN, N: n, Poison: poison, U: u, Cmp: cmp}
+	// bulk: the empty call, every priority pattern of length 2 and 3
 	s.Bulk = [][]int{{}}
 	var gen func(cur []int, l int, out *[][]int)
 	gen = func(cur []int, l int, out *[][]int) {
